@@ -85,6 +85,42 @@ mod verif_kani {
         fn write_facts(&mut self, _: MP) -> Result<MFI, StorageError> { Ok(MFI) }
     }
 
+    struct MSP { st: MStorage }
+    impl StorageProvider for MSP {
+        type Perspective = MP;
+        type Segment = MSeg;
+        type Storage = MStorage;
+        fn new_perspective(&mut self, _: PolicyId) -> MP { MP }
+        fn new_storage(&mut self, _: MP) -> Result<(GraphId, &mut MStorage), StorageError> { Err(StorageError::IoError) }
+        fn get_storage(&mut self, _: GraphId) -> Result<&mut MStorage, StorageError> { Ok(&mut self.st) }
+        fn remove_storage(&mut self, _: GraphId) -> Result<(), StorageError> { Ok(()) }
+        fn list_graph_ids(&mut self) -> Result<impl Iterator<Item = Result<GraphId, StorageError>>, StorageError> { Ok(core::iter::empty()) }
+    }
+
+    /// C17: with nothing left to send, get_next writes SyncEnd{max_index = message_index}, goes Idle,
+    /// and does not advance the index.
+    #[kani::proof]
+    #[kani::unwind(34)]
+    fn get_next_end_of_session() {
+        let mut r = SyncResponder::new();
+        r.session_id = Some(kani::any());
+        r.graph_id = Some(GraphId::default());
+        r.state = SyncResponderState::Send;
+        let idx: usize = kani::any();
+        r.message_index = idx;
+        r.next_send = 0; // to_send is empty
+        let mut sp = MSP { st: MStorage { heads: HeadSet::default(), anc: [[false; 4]; 4], found: None } };
+        let mut buf = [0u8; 64];
+        let blen: usize = kani::any();
+        kani::assume(blen <= 64);
+        let res = r.get_next(&mut buf[..blen], &mut sp);
+        assert!(r.message_index == idx);
+        assert!(r.next_send == 0);
+        assert!(matches!(r.state, SyncResponderState::Idle));
+        if let Ok(n) = res { assert!(n <= blen); kani::cover!(n > 0, "wrote SyncEnd"); }
+        core::mem::forget(res);
+    }
+
     fn id(i: u8) -> CmdId { let mut b = [0u8; 32]; b[0] = i; CmdId::from_bytes(b) }
 
     #[kani::proof]
